@@ -74,8 +74,12 @@ def shards(tier):
     odd = [{'adapter': 'Reg2Axi', 'w': 9, 'sw': 16, 'alpha': [0x000, 0x1FF]},
            {'adapter': 'Reg2Axi', 'w': 12, 'sw': 16, 'alpha': [0x001, 0x800]},
            {'adapter': 'Reg2Axi', 'w': 17, 'sw': 32, 'alpha': [0x10000, 0x0FFFF]}]
+    # registers and streams wider than 64 bits
+    wide = [{'adapter': 'Axi2Reg', 'qw': 72, 'sw': 128, 'alpha': [0, 1 << 64, (1 << 72) - 1, (1 << 127) | 5]},
+            {'adapter': 'Axi2Reg', 'qw': 65, 'sw': 512, 'alpha': [1, 1 << 64, (1 << 511) | (1 << 63)]},
+            {'adapter': 'Reg2Axi', 'w': 72, 'sw': 128, 'alpha': [1 << 64, (1 << 72) - 1]}]
     if tier != 'thorough':
-        out += side + odd
+        out += side + odd + wide
     if tier == 'thorough':
         full = [lo | hi for hi in (0x00, 0xF8) for lo in range(8)]
         out = []
@@ -86,7 +90,7 @@ def shards(tier):
             out.append({'adapter': 'Reg2Axi', 'w': w, 'sw': 8, 'alpha': list(range(1 << w))})
         out.append({'adapter': 'Reg2Axi', 'w': 8, 'sw': 8, 'alpha': [0x00, 0x01, 0x80, 0xFF]})
         out.append({'adapter': 'Reg2Axi', 'w': 9, 'sw': 16, 'alpha': [0x000, 0x001, 0x100, 0x1FF]})
-        out += side + odd[1:]
+        out += side + odd[1:] + wide
         for dut in ('wire', 'reg'):
             out.append({'adapter': 'pair', 'dut': dut, 'qw': 2, 'sw': 8, 'alpha': list(Q_ALPHA)})
     return out
@@ -111,7 +115,7 @@ def _ctx(hw, ins, mons):
     c.alpha = [tuple(a) for _, _, a in ins]
     c.mons = mons
     c.ms = tuple(m.init for _, m, _, _ in mons)
-    c.sim = hw.getSimulator()
+    c.sim = core.interleave(hw.getSimulator())
     # every poked wire must be undriven, every undriven wire that something reads must be poked
     # (the n-input Or ladder leaves one dangling, unread wire behind)
     und = core.undriven_inputs(hw)
@@ -212,7 +216,7 @@ def cycle(c, x, notes=None):
     c.skip = False
     for w, v in zip(c.free, x):
         w.put(v)
-    c.sim.propagateAll()
+    c.sim.clk(0)        # a clock call that advances no cycle: settles the netlist (and lets the lockstep bystander run in between)
     xs = [_read(xm) for _, _, xm, _ in c.mons]
     pres = [_read(om) for _, _, _, om in c.mons]
     for (tag, mon, _, _), s, xd in zip(c.mons, c.ms, xs):
